@@ -446,6 +446,18 @@ def main(chk):
                      "<>._iter.next", "it := <>._iter; [it.next, it.next, it.next, it.next]"]:
             add({"mode": "src", "src": prog, "stdin": stdin or "\n"}, "stdin")
 
+    # the other front ends: the REPL (mode words, multi-line mode, errors, odd input) and the script runner
+    rl = ["1 + 2", "multi", "single", "multi ", "single\t", " multi", "multi\r", "MULTI", "multi single", "x := {", "a: 1", "}", "", "x", "1 / 0", "zz", "{|x|", "x + 1}",
+          '"a', "`raw", "raise Err.new(\"e\")", "return 1", "yield 2", "defer 3", "<>", "<>.S", "\x00", "\u00e9 := 1", "# c", "exit", ":q", "Kernel.exit", "_", "\\1"]
+    for i in range(len(rl)):
+        for j in range(len(rl)):
+            if (i * 7 + j) % (5 if quick else 1) == 0:
+                add({"mode": "repl", "src": "\n".join([rl[i], rl[j], rl[(i + j) % len(rl)], "1"]) + "\n"}, "repl")
+    add({"mode": "repl", "src": "multi\n" + "x := [\n1,\n2\n]\n\nx\n" * 3 + "single\nx\n"}, "repl")
+    add({"mode": "repl", "src": "y" * 70000 + "\n1\n"}, "repl")
+    add({"mode": "repl", "src": ""}, "repl")
+    for prog in corpus[:60] + ["1 / 0", "zz", "(", '"a".p; raise Err.new("x")', "<>.S.p", "{|| 1/0}()", "[1, 2]@{|x| x.nope}", "\n\n  1 / 0\n", "\u00e9", "\x00"]:
+        add({"mode": "script", "src": prog, "stdin": "in\n"}, "script")
     dnames = sorted(set(n for o in objs if o["name"] in ("Diamond", "Iterable", "Iter") for n, t in o["props"] if is_ident(n)))
     for stdin in ("3\n8\n5\n", "", "a\n"):
         for n in dnames:
@@ -491,7 +503,8 @@ def main(chk):
                        "and through every chain; all infix/prefix operators, indexing and slicing over the pool; literal and variable calls; a syntax-directed "
                        "family (every construct with every pool value and every raising expression in every hole); integers around table / cache sizes; "
                        "sequences of 180 distinct values through each built-in in one process, then the first ones again; every Iterable / Diamond method "
-                       "on stdin contents with lines up to 200000 bytes; "
+                       "on stdin contents with lines up to 200000 bytes; the REPL front end on sequences of input lines (mode words with stray blanks, multi-line "
+                       "mode, failing and unfinished input) and the script runner on corpus programs and failing programs; "
                        "plus a seeded stream of malformed sources (token soup, truncated / mutated corpus programs, raw bytes, deep nesting) and stdin "
                        "contents. A case is non-trivial when it ends in a value, a Pangaea error or a syntax error (not discarded).")
     if kinds.get("norun"):
